@@ -107,10 +107,16 @@ def show(x):
     f = flat(x)
     if f is None:
         return repr(x)[:80]
-    out = []
-    for e in f:
-        out.append(repr(e))
-    return "[" + ", ".join(out) + "]" if len(out) != 1 or isinstance(x, (list, tuple, np.ndarray)) else out[0]
+    if isinstance(x, (list, tuple, np.ndarray)):
+        return "[" + ", ".join(repr(e) for e in f) + "]"
+    return repr(f[0])
+
+
+def plain(c):
+    """64-bit numpy scalars behave like the python scalars of their category: keep the model in python values."""
+    if type(c) in (np.int64, np.float64, np.bool_):
+        return c.item()
+    return c
 
 
 # ----------------------------------------------------------------------------- the model
@@ -120,7 +126,7 @@ class AttrModel:
     def __init__(self, cat, arity, default_scalar, n):
         self.cat = cat
         self.k = arity
-        d = type_default(cat) if default_scalar is None else default_scalar
+        d = type_default(cat) if default_scalar is None else plain(default_scalar)
         self.default = [d] * arity
         self.n = n
         self.written = {}
@@ -132,7 +138,7 @@ class AttrModel:
         return i in self.written
 
     def set(self, i, comps):
-        self.written[i] = list(comps)
+        self.written[i] = [plain(c) for c in comps]
 
     def grow(self, m):
         self.n += m
@@ -156,7 +162,7 @@ def entry_category(comps):
     does not speak about)."""
     cats = set()
     for c in comps:
-        if isinstance(c, _NARROW) or isinstance(c, np.generic):
+        if isinstance(c, np.generic):
             return None
         cats.add(category(c))
     if len(cats) != 1:
